@@ -359,6 +359,17 @@ def get_fragments_on_subtype(
                 root_type_def, fragment_root_type_def
             ):
                 fragments.append(fragment_def)
+            else:
+                # fragment on the abstract type itself (or on an overlapping
+                # one): subtypes' fragments spread inside it count as well
+                fragments.extend(
+                    get_fragments_on_subtype(
+                        schema,
+                        fragment_def.selection_set,
+                        fragments_definitions,
+                        root_type,
+                    )
+                )
 
     return fragments
 
